@@ -47,6 +47,39 @@ def gen_multi(run, thorough):
     return out
 
 
+def gen_dict_cases(run, thorough):
+    """histories with BrotliEncoderSetCustomDictionary / set_custom_dictionary before the first stream call:
+    NULL pointer, zero length, 1, 2, a few hundred and more-than-a-block bytes; a late set-parameter (refused once
+    the dictionary has initialised the encoder); tiny and ample output; take-output"""
+    rng = run.rng
+    out = []
+    quals = [0, 1, 2, 5, 9] + ([11] if thorough else [])
+    for q in quals:
+        for lgwin in ([10, 16, 22] if thorough else [rng.choice([10, 16]), 22]):
+            for d in ("dN", "d0:1", "d1:7", "d2:7", "d300:5", "d70000:9"):
+                n = rng.choice([0, 1, 3000, 20000])
+                if q >= 9:
+                    n = min(n, 3000)
+                pre = rng.choice([[], ["s1:%d" % ((q + 1) % 10)], ["s169:1"]])          # before the dictionary: accepted
+                late = rng.choice([[], ["s1:3"], ["s2:12"], ["s168:1"]])                  # after it: refused
+                body = rng.choice([["eR/1000000"], ["p%d/65536" % max(1, n // 2), "f0/65536", "eR/1000000"],
+                                   ["p%d/0" % max(1, n // 3), "t7", "t100000", "f0/0", "t100000", "eR/1000000"],
+                                   [d, "eR/1000000"]])                                     # the dictionary set twice
+                out.append("P=1:%d,2:%d D=%s:%d:%d C=%s" % (q, lgwin, rng.choice(["text", "mix"]), n, rng.randrange(1, 1 << 30),
+                                                            ",".join(pre + [d] + late + body)))
+    return out
+
+
+def gen_contract(run):
+    """a lone alloc or free callback (contract violation) and the consistent pairs as controls, per entry point"""
+    out = []
+    for e in ("create", "pool", "multi", "wpool"):
+        for a, f in ((0, 0), (1, 1), (1, 0), (0, 1)):
+            for t in ((1, 2) if e != "create" else (1,)):
+                out.append("K E=%s A=%d F=%d T=%d" % (e, a, f, t))
+    return out
+
+
 def check(run):
     thorough = run.tier == "thorough"
     ok_proof, broken = vlib.proof_stage(run, "props/C13.v", [])
@@ -69,6 +102,11 @@ def check(run):
     impl = vlib.run_lines(stream_exe, cases, timeout=2400)
     reqs = [sc.model_request(c, i) + " ABI=c" for c, i in zip(cases, impl)]
     mod = vlib.run_lines(model, reqs, timeout=2400) if os.path.exists(model) else [""] * len(cases)
+    # dictionary histories: three-way comparison only (the stream model has no dictionary)
+    dcases = gen_dict_cases(run, thorough)
+    douts = vlib.run_lines(exe, ["P " + c for c in dcases], timeout=2400)
+    cases, outs, mod = cases + dcases, outs + douts, mod + [""] * len(dcases)
+    meta = meta + [("custom-dictionary", [t for t in c.split() if t.startswith("P=")][0]) for c in dcases]
     stats = {"same": 0, "diff": 0, "crash": 0, "total_checked": 0, "model_totals_agree": 0, "model_totals_differ": 0, "takes": 0, "null_buffers": 0}
     for k, (c, o, m) in enumerate(zip(cases, outs, mod)):
         cfg = [t for t in c.split() if t.startswith("P=")][0]
@@ -131,6 +169,33 @@ def check(run):
                 break
         if okm_:
             stats["model_totals_agree"] += 1
+    # contract violations at the boundary: every request in a process of its own, so that an abort is visible
+    kreqs = gen_contract(run)
+    kouts = vlib.run_lines(exe, kreqs, shards=len(kreqs), timeout=600)
+    kstats = {"ok": 0, "refused": 0, "bad": 0}
+    for r, o in zip(kreqs, kouts):
+        f, t = fields(o), fields(r)
+        case = {"request": r, "entry": t["E"], "alloc_callback": t["A"], "free_callback": t["F"]}
+        pair = t["A"] == t["F"]
+        why = None
+        if "V" not in f:
+            why = "the process did not survive the call (abort / crash): " + o[:200]
+        elif f["V"] in ("inst:bad", "ret:bad"):
+            why = "reported success but the result is wrong"
+        elif pair and f["V"] in ("null", "ret:0"):
+            why = "a consistent callback pair was refused"
+        elif pair and (f["ALLOC"] != f["FREE"] or f["BADFREE"] != "0" or f["LIVE"] != "0"):
+            why = "callbacks unbalanced: " + o[:200]
+        elif f["BADFREE"] != "0":
+            why = "free callback called with a block it did not produce"
+        if why:
+            kstats["bad"] += 1
+            run.report("spec-violation", case, {"impl": o[:300], "spec": why}, what="callback contract at the C boundary: " + why[:60])
+        elif f["V"] in ("null", "ret:0"):
+            kstats["refused"] += 1
+        else:
+            kstats["ok"] += 1
+    run.cov["contract_requests"] = kstats
     # one-shot / multi-thread / work-pool entry points
     mreqs = gen_multi(run, thorough)
     mouts = vlib.run_lines(exe, mreqs, shards=4, timeout=2400)
